@@ -39,6 +39,7 @@ func runC16(c *eng.Ctx) {
 	rulePublishWaitsWhereTheAckDecides(c)
 	ruleAckInboxIsNotLimitedToOneMessage(c)
 	ruleForeignAckNeverCompletesAPublish(c)
+	rulePublishWaitsForTheMessagesOwnStream(c)
 	ruleAPublishGoesOnTheWireOnce(c)
 	c.Rule("R16.8", "K6")
 	ruleStreamConfigCopiesAreComplete(c)
